@@ -14,6 +14,15 @@ C16 driver.  Requests (after a `graph …` line):
 
 `panic` as answer = the call panicked.
 
+Run-time checks of the hypotheses of the model theorems (wave 4, `Theorems/C16.lean` section "run-time
+checks of the hypotheses"): every `graph` line must pass `graphScopeB` (`wfB`: `MGraph.WellFormed`;
+`viewOkB`: neighbour lists are permutations of the abstract graph's; `rowsOkB`: nothing is enumerated
+for a non-node), every `sf r` line `sfScopeB` (… and `r` is a node), every `ap` line `apScopeB`
+(… and the graph is undirected and `indexOkB`: `to_index` is injective and below `node_bound()` on the
+nodes).  A failed check is a `SPECFAIL side condition <name> does not hold` (the encoding's trait
+implementations do not describe one graph) or, for the root, `SPECFAIL generator left the proved
+range`.
+
 Exact part: the mirror models (`Model/C16Dom.lean`, `Model/C16Artic.lean`) run on the view.
 Spec part: the checkers of `Oracle/C16.lean` (proved sound in `Theorems/C16.lean`) on the abstract graph.
 -/
@@ -27,6 +36,36 @@ structure DState where
 /-- the view's neighbour lists describe the abstract graph (as multisets) -/
 def viewOkB (v : View) : Bool :=
   v.g.nodes.all fun a => sameSet (v.succ a) (v.g.succ a) && sameSet (v.pred a) (v.g.pred a)
+
+/-! ### run-time checks of the hypotheses of the model theorems -/
+
+/-- `MGraph.WellFormed`: `node_identifiers()` lists every node once and every edge of the abstract graph
+joins two of them -/
+def wfB (g : MGraph) : Bool :=
+  nodupB g.nodes && g.edges.all fun e => g.nodes.contains e.src && g.nodes.contains e.tgt
+
+/-- the view enumerates no neighbour for an id that is not a node -/
+def rowsOkB (v : View) : Bool := v.out.all fun p => v.g.nodes.contains p.1 || p.2.isEmpty
+
+/-- `IndexOk`: the `ix` table lists exactly the nodes (in `node_identifiers()` order), `to_index` of a
+node is below `node_bound()`, neighbours of nodes are nodes, `to_index` is injective on the nodes -/
+def indexOkB (v : View) : Bool :=
+  (v.ix.map (·.1) == v.g.nodes) &&
+  (v.g.nodes.all fun a => decide (v.toIndex a < v.nb)) &&
+  (v.g.nodes.all fun a => (v.succ a).all fun t => v.g.nodes.contains t) &&
+  (v.g.nodes.all fun a => v.g.nodes.all fun b => v.toIndex a != v.toIndex b || a == b)
+
+/-- the root given to `simple_fast` is a node -/
+def rootOkB (v : View) (r : Nat) : Bool := v.g.nodes.contains r
+
+/-- what every `graph` line must satisfy -/
+def graphScopeB (v : View) : Bool := wfB v.g && viewOkB v && rowsOkB v
+
+/-- every hypothesis of `C16_simple_fast` / `C16_simple_fast_accessors` (`C16_sf_scope_check`) -/
+def sfScopeB (v : View) (r : Nat) : Bool := graphScopeB v && rootOkB v r
+
+/-- every hypothesis of `C16_articulation` (`C16_ap_scope_check`) -/
+def apScopeB (v : View) : Bool := graphScopeB v && !v.g.directed && indexOkB v
 
 def showSl (l : List Nat) : String :=
   if l.isEmpty then "-" else String.intercalate "/" (l.map toString)
@@ -68,9 +107,12 @@ def showRec (r : Rec) : String :=
   s!"{r.b}:{showOptX r.idom}:{showOptSl r.doms}:{showOptSl r.strict}:{showSl r.idb}"
 
 /-- the model's observation of a `Doms` value, in the harness's format -/
+def recsOf (nodes : List Nat) (d : Doms) : List Rec :=
+  nodes.map fun b =>
+    ⟨b, d.immediateDominator b, d.dominators b, d.strictDominators b, sortNats (d.immediatelyDominatedBy b)⟩
+
 def showDoms (nodes : List Nat) (d : Doms) : String :=
-  let recs := nodes.map fun b =>
-    showRec ⟨b, d.immediateDominator b, d.dominators b, d.strictDominators b, sortNats (d.immediatelyDominatedBy b)⟩
+  let recs := (recsOf nodes d).map showRec
   s!"root={d.root} " ++ (if recs.isEmpty then "-" else String.intercalate ";" recs)
 
 def modelSf (v : View) (root : Nat) : String :=
@@ -79,11 +121,9 @@ def modelSf (v : View) (root : Nat) : String :=
   | .panic _ => "panic"
   | .fuel => "FUEL"
 
-/-- spec-level verdict on one `sf` answer: every clause of the property, per node -/
-def judgeSf (g : MGraph) (r : Nat) (implRoot : Nat) (recs : List Rec) : Option String :=
-  match domTable g r with
-  | none => some "ORACLE-FUEL"
-  | some T =>
+/-- spec-level verdict on one `sf` answer, given the dominator table: every clause of the property,
+per node -/
+def judgeSfT (T : DomTable) (g : MGraph) (r : Nat) (implRoot : Nat) (recs : List Rec) : Option String :=
     if implRoot != r then some s!"root() = {implRoot}, the root given was {r}" else
     if !(sameSet (recs.map (·.b)) g.nodes) then some "answer does not list every node once" else
     recs.findSome? fun rc =>
@@ -96,6 +136,13 @@ def judgeSf (g : MGraph) (r : Nat) (implRoot : Nat) (recs : List Rec) : Option S
       else if !T.checkIdb rc.b rc.idb then
         some s!"immediately_dominated_by({rc.b}) = {showSl rc.idb}; nodes whose immediate dominator it is: {showSl (sortNats (T.idbOf rc.b))}"
       else none
+
+/-- spec-level verdict on one `sf` answer.  The `ORACLE-FUEL` branch is unreachable
+(`C16_judge_sf_conclusive`: `domTable` always returns). -/
+def judgeSf (g : MGraph) (r : Nat) (implRoot : Nat) (recs : List Rec) : Option String :=
+  match domTable g r with
+  | none => some "ORACLE-FUEL"
+  | some T => judgeSfT T g r implRoot recs
 
 def parseSfAnswer (impl : String) : Option (Nat × List Rec) :=
   match splitWords impl with
@@ -116,17 +163,47 @@ def modelAp (v : View) : String :=
   | .error "FUEL" => "FUEL"
   | .error _ => "panic"
 
+def apWhy (out l : List Nat) : String :=
+  s!"articulation_points = {showNats out}; nodes whose removal increases the number of connected components: {showNats (sortNats l)}"
+
+/-- spec-level verdict on an `ap` answer.  The `ORACLE-FUEL` branch is unreachable
+(`C16_judge_ap_conclusive`: `cutSet` always returns). -/
 def judgeAp (g : MGraph) (out : List Nat) : Option String :=
   if checkAP g out then none else
   match cutSet g with
   | none => some "ORACLE-FUEL"
-  | some l => some s!"articulation_points = {showNats out}; nodes whose removal increases the number of connected components: {showNats (sortNats l)}"
+  | some l => some (apWhy out l)
 
 def verdict (spec : Option String) (model impl : String) : String :=
   match spec with
   | some "ORACLE-FUEL" => "JUDGE-ERROR the reachability oracle ran out of fuel (never expected)"
   | some why => s!"SPECFAIL {why}"
   | none => cmpExact model impl
+
+/-- the answer to an `sf` / `ap` line whose scope check fails -/
+def sfScopeFail (v : View) (r : Nat) : String :=
+  if !rootOkB v r then s!"SPECFAIL generator left the proved range: root {r} is not a node of the graph"
+  else "SPECFAIL side condition of simple_fast does not hold (graph line not accepted)"
+
+def apScopeFail (v : View) : String :=
+  if v.g.directed then "SPECFAIL bad request: articulation points are judged on undirected graphs"
+  else if !indexOkB v then
+    s!"SPECFAIL side condition IndexOk does not hold: to_index is not injective and below node_bound() = {v.nb} on the nodes, or a neighbour is not a node"
+  else "SPECFAIL side condition of articulation_points does not hold (graph line not accepted)"
+
+/-- an `sf r` line: judged only inside the scope of `C16_simple_fast_checked` -/
+def stepSf (v : View) (r : Nat) (impl : String) : String :=
+  if !sfScopeB v r then sfScopeFail v r else
+  if impl == "panic" then s!"SPECFAIL simple_fast panicked (root {r})" else
+  match parseSfAnswer impl with
+  | none => s!"SPECFAIL malformed answer {impl}"
+  | some (ir, recs) => verdict (judgeSf v.g r ir recs) (modelSf v r) impl
+
+/-- an `ap` line: judged only inside the scope of `C16_articulation_checked` -/
+def stepAp (v : View) (impl : String) : String :=
+  if !apScopeB v then apScopeFail v else
+  if impl == "panic" then "SPECFAIL articulation_points panicked" else
+  verdict (judgeAp v.g (parseNats impl)) (modelAp v) impl
 
 def step (d : DState) (req : List String) (impl : String) : DState × String :=
   match req with
@@ -135,22 +212,19 @@ def step (d : DState) (req : List String) (impl : String) : DState × String :=
     match parseView req with
     | none => (d, "SPECFAIL unparsable graph line")
     | some v =>
-      if viewOkB v then ({ v := v, ok := true }, "ok")
-      else ({ v := v, ok := false }, "SPECFAIL neighbour iteration of this encoding does not describe the abstract graph")
+      if graphScopeB v then ({ v := v, ok := true }, "ok")
+      else if !wfB v.g then
+        ({ v := v, ok := false }, "SPECFAIL side condition WellFormed does not hold: node_identifiers() repeats a node or an edge of the abstract graph joins an id it does not list")
+      else if !viewOkB v then
+        ({ v := v, ok := false }, "SPECFAIL side condition ViewOk does not hold: neighbour iteration of this encoding does not describe the abstract graph")
+      else ({ v := v, ok := false }, "SPECFAIL side condition ViewOk does not hold: neighbours are enumerated for an id that is not a node")
   | ["sf", root] =>
     if !d.ok then (d, "SPECFAIL no valid graph") else
     match root.toNat? with
     | none => (d, "SPECFAIL bad request")
-    | some r =>
-      if impl == "panic" then (d, s!"SPECFAIL simple_fast panicked (root {r})") else
-      match parseSfAnswer impl with
-      | none => (d, s!"SPECFAIL malformed answer {impl}")
-      | some (ir, recs) => (d, verdict (judgeSf d.v.g r ir recs) (modelSf d.v r) impl)
+    | some r => (d, stepSf d.v r impl)
   | ["ap"] =>
-    if !d.ok then (d, "SPECFAIL no valid graph") else
-    if d.v.g.directed then (d, "SPECFAIL bad request: articulation points are judged on undirected graphs") else
-    if impl == "panic" then (d, "SPECFAIL articulation_points panicked") else
-    (d, verdict (judgeAp d.v.g (parseNats impl)) (modelAp d.v) impl)
+    if !d.ok then (d, "SPECFAIL no valid graph") else (d, stepAp d.v impl)
   | _ => (d, s!"SPECFAIL bad request {req}")
 
 end PetgraphModel.C16
